@@ -44,10 +44,51 @@ class Contract:
 
 
 class Registry(dict):
+    """key -> contracts.  Several property modules may put the SAME function under contract (e.g. C05 proves
+    sort_nodes_impl, C07 only assumes it): every registration is kept.  While property `current` is being verified a
+    lookup prefers that property's own contract, then one of the properties it DEPENDS on (`scope`), then the first
+    verified (non-assumed) one, then an assumed one."""
+
+    def __init__(self):
+        super().__init__()
+        self.alts = {}
+        self.current = None
+        self.scope = ()
+
     def add(self, key=None, **kw):
         c = Contract(key, **kw)
-        self[key] = c
+        self.alts.setdefault(key, []).append(c)
+        if key not in self.keys():
+            dict.__setitem__(self, key, c)
         return c
+
+    def get(self, key, default=None):
+        alts = self.alts.get(key)
+        if not alts:
+            return default
+        for c in alts:
+            if c.prop == self.current:
+                return c
+        for c in alts:
+            if c.prop in self.scope:
+                return c
+        for c in alts:
+            if not c.trusted:
+                return c
+        return alts[0]
+
+    def __setitem__(self, key, c):  # direct slot assignment (private slots of a contract module)
+        self.alts[key] = [c]
+        dict.__setitem__(self, key, c)
+
+    def __getitem__(self, key):
+        c = self.get(key)
+        if c is None:
+            raise KeyError(key)
+        return c
+
+    def values(self):
+        return [c for alts in self.alts.values() for c in alts]
 
 
 def split_label(clause, default):
